@@ -408,9 +408,9 @@ def rule_unpack(run):
     prep = run.idx.mod(PREP)
     f = prep.func("PrepareAst._split_target")
     prims = {"isinstance": lambda v, t: isinstance(v, t) if isinstance(t, type) else False, "ast": _AstTok(), "len": len, "enumerate": enumerate}
-    for before in range(0, 4):
-        for after in range(0, 4):
-            for mid in range(0, 3):
+    for before in range(0, run.bound(4, 6)):
+        for after in range(0, run.bound(4, 6)):
+            for mid in range(0, run.bound(3, 5)):
                 targets = [_Name() for _ in range(before)] + [_Star()] + [_Name() for _ in range(after)]
                 n = before + after + mid
                 source = [f"e{i}" for i in range(n)]
